@@ -307,7 +307,15 @@ fn random_tree_tokens(r: &mut Rng, depth: usize, budget: &mut usize, instr: &[St
 const WS: [&str; 8] = [" ", "  ", "\t", "\n", "\r\n", "\u{00a0}", "\u{2003}", " \n\t "];
 
 pub fn run(ctx: &mut Ctx) {
-    let (is, names) = new_iset();
+    let (mut is, mut names) = new_iset();
+    // instructions registered by the embedding program may be spelled like numbers or booleans: the
+    // documented order asks the registry FIRST
+    for n in ["INF", "NaN", "1E3", "42", "TRUE", "-7", "0.5"] {
+        is.add(n.to_string(), pushr::push::instructions::Instruction::new(|_s: &mut pushr::push::state::PushState, _c: &pushr::push::instructions::InstructionCache| {}));
+        names.push(n.to_string());
+    }
+    names.sort();
+    let is = is;
     let empty = Snap::empty();
     let mut case: u64 = 0;
 
